@@ -17,6 +17,8 @@ def build(chk):
     evs = eng.method('evaluate_samples', first_param='&v1::Instance')
     ev_i = eng.method('evaluate', first_param='&v1::Instance')
     get = eng.method('get', first_param='&SampleSet')
+    sample_ids = eng.method('sample_ids', first_param='&SampleSet')
+    num_samples = eng.method('num_samples', first_param='&SampleSet')
     B, rd = Build(chk), Rd(chk)
     NMAX = 2 if chk.tier == 'quick' else 3
     chk.bounds = {'instance': 'variables 1 (used), 2 (used, bounded), 5 (irrelevant, bounded) [+ 6 fixed by substituted_value, + dependent 7]; linear objective; 1 active + 1 removed constraint',
@@ -75,6 +77,8 @@ def build(chk):
                     ss = chk.unhex(res['ok']['sample_set'], 'ommx.v1.SampleSet')
                     if sorted(k for k, _ in ss['feasible']) != sorted(ids) or sorted(k for k, _ in ss['feasible_relaxed']) != sorted(ids):
                         return True
+                    if sorted(res['ok'].get('sample_ids', ids)) != sorted(ids) or res['ok'].get('num_samples', {'ok': len(ids)}) != {'ok': len(ids)}:
+                        return True
                     for i in ids:
                         g = res['ok']['get'][str(i)]
                         if exps[i] is None:
@@ -106,6 +110,15 @@ def build(chk):
                 for ent in deref(eng.field(objs, 'v1::SampledValues', 'entries')).items:
                     oids += list(deref(eng.field(ent, 'v1::sampled_values::SampledValuesEntry', 'ids')).items)
             if not P.require('tables-keyed-by-submitted-ids', b_and(keys_ok, sorted(oids) == sorted(ids)), witness):
+                return
+            # SampleSet::sample_ids / num_samples report exactly the submitted ids
+            try:
+                sid = P.it.run_body(sample_ids, [ref_to(ss)])
+                nsm = P.it.run_body(num_samples, [ref_to(ss)])
+            except RustPanic:
+                P.fail('sample_ids-no-panic', witness, role)
+                return
+            if not P.require('sample_ids-and-num_samples', b_and([e[0] for e in deref(sid).entries] == sorted(ids), nsm.vname == 'Ok' and scalar_eq(nsm.f[0], len(ids))), witness):
                 return
             for i in ids:
                 exp = c05.expected(spec, state_of[i])
